@@ -37,7 +37,7 @@ fn opt_same(whole: &[u8], got: Option<&str>, s: usize, e: usize) -> bool {
 fn data_url<const N: usize>() {
     let t = Text::<N>::any();
     let b = t.bytes();
-    let want = if tables::t_uri_uri_valid(b) { shape(b) } else { None };
+    let want = if tables::t_uri_uri_valid_k(b, N) { shape(b) } else { None };
     let r1 = DataUrl::new(b);
     let v = vec_of(b);
     let r2 = DataUrlBuf::new(v);
